@@ -241,6 +241,16 @@ def gen_def(rng):
         later = types[i + 1:]
         if later and rng.random() < 0.8:
             rel[ty] = {c: rspec(c) for c in rng.sample(later, rng.randint(1, len(later)))}
+    if rng.random() < 0.25:
+        # a relation graph with a cycle (folders in folders): legal as long as the counts let the recursion die out - the
+        # self-relation has less than 0.4 children on average and is the only cycle (longer cycles would multiply with the
+        # fixed counts on their way and could run away on the unchanged library, too)
+        ty = rng.choice(types)
+        back = ty
+        sp = rspec(back)
+        sp[":count"] = rng.choice([tg.RangeRandomizer(0, 1, probability=0.6), tg.RangeRandomizer(1, 2, probability=0.25)])
+        sp.pop(":callback", None)
+        rel.setdefault(ty, {})[back] = sp
     if "*" in tdefs and rng.random() < 0.3:
         tdefs["*"]["gnone"] = None
     d = {"relations": rel, "types": tdefs}
